@@ -70,6 +70,20 @@ def run_one(ctx, c, rng):
         c.matching = []  # the API refuses fix_alpha with matching sections (NotImplementedError): outside the property
     desc = calib.case_desc(c, opts)
     out = calib.check_wls_case(ctx, c, opts, known_weights=KNOWN)
+    # the executable scatter model (Model/Scatter.lean: ip_use of the single-ended helper, from_i of the double-ended branches; tied to
+    # the source by the translator, proved equal to the model's list of unknowns) against the Spec's list of free parameters
+    S = calib.spec_system(c, **calib.fix_to_model(opts))
+    act = S["active"]
+    ixE = [a - (1 + 2 * c.nt) for a in act if 1 + 2 * c.nt <= a < 1 + 2 * c.nt + c.nx] if c.double else []
+    sm = ctx.driver().call("scatter", nt=c.nt, N=c.nx, nta=len(c.trans_att), ix_sec=fibre.ix_sec(c), ixE=ixE, p=[], E=[],
+                           fg="fix_gamma" in opts, fa="fix_alpha" in opts, fd="fix_dalpha" in opts)
+    if c.double:
+        key = "fix_both" if {"fix_gamma", "fix_alpha"} <= set(opts) else "fix_gamma" if "fix_gamma" in opts else "fix_alpha"
+    else:
+        key = "ip_use"
+    if sm[key] != act:
+        ctx.mismatch(f"Scatter.{key}", desc, sm[key][:12], act[:12])
+    ctx.count("scatter model compared")
     if out is not None and not isinstance(out, tuple):
         fixed_reported(ctx, c, out, opts, desc)
         vals = [out[k].values for k in ("tmpf", "tmpf_var", "p_val")] + ([out["tmpb"].values] if c.double else [])
